@@ -24,7 +24,36 @@ pub fn mutate(ch: &mut Choices, b: &mut Vec<u8>) -> &'static str {
         return "fault.random_bytes";
     }
     let n = b.len() as u64;
-    match ch.draw("mut.kind", 10) {
+    match ch.draw("mut.kind", 12) {
+        10 | 11 => {
+            // a container / string head rewritten to declare a huge length (what a hostile peer sends to
+            // make a decoder pre-allocate): 4- or 8-byte length argument inserted after the head
+            let mut heads = vec![];
+            if let Ok(items) = cbor::parse_seq(b) {
+                for it in &items {
+                    it.heads(&mut heads);
+                }
+            }
+            let cands: Vec<usize> = heads.into_iter().filter(|h| matches!(b[*h] >> 5, 2 | 3 | 4 | 5) && (b[*h] & 0x1f) < 24).collect();
+            if cands.is_empty() {
+                b[0] = 0x9b;
+                return "fault.huge_declared_length";
+            }
+            // prefer heads close to the start of a message: they belong to the message's own structure
+            let k = if ch.chance("mut.huge.early", 2, 3) { ch.draw("mut.huge.idx.early", cands.len().min(4) as u64) } else { ch.draw("mut.huge.idx", cands.len() as u64) } as usize;
+            let h = cands[k];
+            let mt = b[h] & 0xe0;
+            let arg: Vec<u8> = match ch.draw("mut.huge.val", 5) {
+                0 => vec![0xff; 8],
+                1 => (1u64 << 62).to_be_bytes().to_vec(),
+                2 => (1u64 << 40).to_be_bytes().to_vec(),
+                3 => (u64::MAX / 32).to_be_bytes().to_vec(),
+                _ => 0xffff_ffffu32.to_be_bytes().to_vec(),
+            };
+            b[h] = mt | if arg.len() == 8 { 27 } else { 26 };
+            b.splice(h + 1..h + 1, arg);
+            "fault.huge_declared_length"
+        }
         0 | 1 => {
             for _ in 0..1 + ch.draw("mut.flips", 3) {
                 let at = ch.draw("mut.flip.at", n) as usize;
@@ -555,7 +584,7 @@ impl Scenario for Ledger {
 
 pub fn def() -> CheckDef {
     let mut required: Vec<&'static str> = vec![
-        "fault.bit_flip", "fault.byte_overwrite", "fault.truncation", "fault.splice", "fault.cbor_length_corruption", "fault.garbage_range", "fault.random_bytes", "fault.deep_nesting", "fault.foreign_protocol_payload",
+        "fault.bit_flip", "fault.byte_overwrite", "fault.truncation", "fault.splice", "fault.cbor_length_corruption", "fault.garbage_range", "fault.random_bytes", "fault.deep_nesting", "fault.huge_declared_length", "fault.foreign_protocol_payload",
         "probe.MultiEraBlock::decode.ok", "probe.MultiEraBlock::decode.err", "probe.MultiEraTx::decode.ok", "probe.MultiEraTx::decode.err", "probe.MultiEraHeader::decode.ok", "probe.MultiEraHeader::decode.err",
         "probe.MultiEraOutput::decode.reached", "probe.Address::from_bytes.ok", "probe.Address::from_bytes.err", "probe.AnyMessage::from_payload.ok",
     ];
@@ -567,7 +596,7 @@ pub fn def() -> CheckDef {
         prop: "C09",
         level: "exploration",
         batches: vec![batch(Wire1Faults, 12_000, 700_000, true), batch(Wire2Faults, 10_000, 600_000, true), batch(Ledger, 6_000, 300_000, true)],
-        rule: "a conformant simulated peer streams generated legal messages of every stack-1 / stack-2 protocol (and every block, transaction and header artefact of test_data plus sampled chunk blocks, framed as block-fetch / tx-submission / chain-sync replies) through a corrupting transport: 0..3 faults per stream out of k-bit flips, byte overwrite with CBOR-significant values, range splice (dup/move/delete), truncate-then-EOF, CBOR head/length corruption at real item heads, garbage ranges, pure random payload, container-nesting runs, payload of another protocol, applied in flight (segment stream incl. headers) or at rest (artefact before framing); real demuxer + typed decoders consume until EOF, decoded stack-2 garbage is fed on into both behaviours, arrived artefacts go through MultiEraBlock/Tx/Header/Output::decode and Address::from_bytes; oracle: no panic in a decode entry point, no process abort (supervised child), runs end by EOF; per-entry-point reached/ok/err counters; non-trivial = completed run with a non-neutral choice; distinct = distinct traces",
+        rule: "a conformant simulated peer streams generated legal messages of every stack-1 / stack-2 protocol (and every block, transaction and header artefact of test_data plus sampled chunk blocks, framed as block-fetch / tx-submission / chain-sync replies) through a corrupting transport: 0..3 faults per stream out of k-bit flips, byte overwrite with CBOR-significant values, range splice (dup/move/delete), truncate-then-EOF, CBOR head/length corruption at real item heads, heads rewritten to declare a huge (2^32 .. 2^64-1) length, garbage ranges, pure random payload, container-nesting runs, payload of another protocol, applied in flight (segment stream incl. headers) or at rest (artefact before framing); real demuxer + typed decoders consume until EOF, decoded stack-2 garbage is fed on into both behaviours, arrived artefacts go through MultiEraBlock/Tx/Header/Output::decode and Address::from_bytes; oracle: no panic in a decode entry point, no process abort (supervised child), runs end by EOF; per-entry-point reached/ok/err counters; non-trivial = completed run with a non-neutral choice; distinct = distinct traces",
         real: vec!["MultiEraBlock::decode, MultiEraTx::decode/decode_for_era, MultiEraHeader::decode, MultiEraOutput::decode, Address::from_bytes", "every stack-1 message decoder via Demuxer + ChannelBuffer::recv_full_msg", "stack-2 read_full_msgs + AnyMessage::from_payload", "InitiatorBehavior / ResponderBehavior on decoded garbage"],
         stub: vec!["serving peer and its corrupting transport (simulated)", "socket (SimPipe)"],
         assumptions: vec![
